@@ -576,12 +576,14 @@ impl<'a> KMergeIterator<'a> {
 						continue;
 					}
 					// Skip tables outside timestamp range (if specified)
-					if let Some((ts_start, ts_end)) = ts_range {
+					// (A table entirely ABOVE the window may hold the hard delete or
+					// replace that erases versions inside it: only tables entirely below
+					// the window can be skipped.)
+					if let Some((ts_start, _)) = ts_range {
 						let props = &table.meta.properties;
-						if let (Some(newest), Some(oldest)) =
-							(props.newest_key_time, props.oldest_key_time)
+						if let (Some(newest), Some(_)) = (props.newest_key_time, props.oldest_key_time)
 						{
-							if newest < ts_start || oldest > ts_end {
+							if newest < ts_start {
 								continue;
 							}
 						}
@@ -602,12 +604,14 @@ impl<'a> KMergeIterator<'a> {
 
 				for table in &level.tables[start_idx..end_idx] {
 					// Skip tables outside timestamp range (if specified)
-					if let Some((ts_start, ts_end)) = ts_range {
+					// (A table entirely ABOVE the window may hold the hard delete or
+					// replace that erases versions inside it: only tables entirely below
+					// the window can be skipped.)
+					if let Some((ts_start, _)) = ts_range {
 						let props = &table.meta.properties;
-						if let (Some(newest), Some(oldest)) =
-							(props.newest_key_time, props.oldest_key_time)
+						if let (Some(newest), Some(_)) = (props.newest_key_time, props.oldest_key_time)
 						{
-							if newest < ts_start || oldest > ts_end {
+							if newest < ts_start {
 								continue;
 							}
 						}
@@ -1477,15 +1481,14 @@ impl<'a> HistoryIterator<'a> {
 		Ok(false)
 	}
 
-	/// With ts_range, seek to (next_user_key, ts_end) to skip entries above range.
+	/// With ts_range, seek straight to the newest version of the next user_key.
 	/// Without ts_range, linearly scan past entries with the same user_key.
 	/// Returns true if positioned on a new user_key, false if iterator exhausted.
 	fn advance_to_next_user_key(&mut self) -> Result<bool> {
 		// Only optimize with ts_range
-		let ts_end = match self.ts_range {
-			Some((_, end)) => end,
-			None => return self.skip_to_next_user_key(),
-		};
+		if self.ts_range.is_none() {
+			return self.skip_to_next_user_key();
+		}
 
 		let current = self.current_user_key.clone();
 
@@ -1493,9 +1496,11 @@ impl<'a> HistoryIterator<'a> {
 		while self.inner_valid() {
 			let next_key_vec = self.inner_key().user_key().to_vec();
 			if next_key_vec != current {
-				// Found next key - seek to (next_key, ts_end) to skip entries above range
+				// Found next key - position on its NEWEST version: versions above the
+				// window are not listed, but a hard delete or replace among them
+				// decides what is listed below them.
 				let seek_key =
-					InternalKey::new(next_key_vec, u64::MAX, InternalKeyKind::Set, ts_end);
+					InternalKey::new(next_key_vec, u64::MAX, InternalKeyKind::Set, u64::MAX);
 				self.inner.seek(&seek_key.encode())?;
 				return Ok(self.inner_valid());
 			}
@@ -1596,13 +1601,14 @@ impl<'a> HistoryIterator<'a> {
 				continue;
 			}
 
-			// Skip entries outside timestamp range
-			if let Some((ts_start, ts_end)) = self.ts_range {
-				if timestamp > ts_end {
-					// Above range - skip, next entries might be in range
-					self.inner_next()?;
-					continue;
-				}
+			// Entries ABOVE the timestamp range are not listed, but they take part in
+			// the barrier rules below (a hard delete or replace newer than the window
+			// erases what lies inside it); entries below the range end the key.
+			let above_ts_range = match self.ts_range {
+				Some((_, ts_end)) => timestamp > ts_end,
+				None => false,
+			};
+			if let Some((ts_start, _)) = self.ts_range {
 				if timestamp < ts_start {
 					// Below range - all remaining entries for this key are also below
 					// (timestamps are ordered descending within a key).
@@ -1649,6 +1655,12 @@ impl<'a> HistoryIterator<'a> {
 				// Don't skip - fall through to output
 			}
 
+			// Above the timestamp range: its barrier (if any) is recorded, it is not listed
+			if above_ts_range {
+				self.inner_next()?;
+				continue;
+			}
+
 			// Rule 5: Soft DELETE (tombstone) filtering
 			if !self.include_tombstones && is_tombstone {
 				self.inner_next()?;
@@ -1691,6 +1703,8 @@ impl<'a> HistoryIterator<'a> {
 		// Collect all visible versions
 		// Backward storage order: (user_key DESC, seq_num ASC) → oldest first
 		struct VersionInfo {
+			// (versions outside the timestamp range still take part in the barrier rules)
+			in_ts_range: bool,
 			is_hard_delete: bool,
 			is_replace: bool,
 			is_tombstone: bool,
@@ -1720,8 +1734,9 @@ impl<'a> HistoryIterator<'a> {
 			let duplicate =
 				versions.last().is_some_and(|v| v.encoded_key.as_slice() == key_ref.encoded());
 
-			if visible && in_ts_range && !duplicate {
+			if visible && !duplicate {
 				versions.push(VersionInfo {
+					in_ts_range,
 					is_hard_delete: key_ref.is_hard_delete_marker(),
 					is_replace: key_ref.is_replace(),
 					is_tombstone: key_ref.is_tombstone(),
@@ -1775,6 +1790,11 @@ impl<'a> HistoryIterator<'a> {
 		for v in versions.into_iter().skip(valid_start_idx) {
 			// Skip HARD_DELETE markers (shouldn't happen after valid_start_idx, but be safe)
 			if v.is_hard_delete {
+				continue;
+			}
+
+			// Timestamp range filtering (after the barriers were applied)
+			if !v.in_ts_range {
 				continue;
 			}
 
@@ -1907,17 +1927,7 @@ impl LSMIterator for HistoryIterator<'_> {
 		self.direction = MergeDirection::Forward;
 		self.reset_all_state();
 
-		if self.ts_range.is_some() {
-			// Seek to (lower_bound or empty, ts_end) to skip entries above range
-			let ts = self.ts_range.map(|(_, end)| end).unwrap_or(u64::MAX);
-			let seek_key = InternalKey::new(
-				self.lower_bound.clone().unwrap_or_default(),
-				u64::MAX,
-				InternalKeyKind::Set,
-				ts,
-			);
-			self.inner.seek(&seek_key.encode())?;
-		} else if let Some(ref lower) = self.lower_bound {
+		if let Some(ref lower) = self.lower_bound {
 			let seek_key =
 				InternalKey::new(lower.clone(), u64::MAX, InternalKeyKind::Set, u64::MAX);
 			self.inner.seek(&seek_key.encode())?;
